@@ -86,6 +86,20 @@ func (enc *Enc) assume(t *Term, note string) {
 	if isTrue(t) {
 		return
 	}
+	// split conjunctions (also under an implication) so that quantifier-free conjuncts stay usable on
+	// their own
+	if t.Op == "and" {
+		for _, a := range t.Args {
+			enc.assume(a, note)
+		}
+		return
+	}
+	if t.Op == "=>" && len(t.Args) == 2 && t.Args[1].Op == "and" {
+		for _, a := range t.Args[1].Args {
+			enc.assume(Implies(t.Args[0], a), note)
+		}
+		return
+	}
 	enc.items = append(enc.items, Item{T: t, Note: note})
 }
 
